@@ -12,6 +12,10 @@ from ..engines import labelkind as LK
 
 
 def run(ctx):
+    # language-level slips in the modules the property is anchored in (engine Y)
+    from ..engines import gotchas as GY
+    GY.run(ctx, ('strategies.strategy', 'comb_spec_searcher', 'specification', 'rule_db.base', 'rule_db.forest', 'rule_db.forget', 'specification_extrator', 'strategies.rule', 'strategies.constructor.cartesian', 'strategies.constructor.disjoint', 'utils'))
+    ctx.floor("Y", 1)
     ctx.extra["explanation"] = (
         "static analysis (ast, no execution): rules are handed back only after has_specification(), from the same "
         "database, and become a specification rooted at the start class; the extracted rule set is closed (engine G) and "
@@ -63,3 +67,7 @@ def run(ctx):
     from ..engines import dispatch as DP
     DP.d2_static_overrides_are_named(ctx, ("Constructor",))
     ctx.floor("D2", 4)
+    # classes on a cycle of one-way rules are one class: found whenever the search is asked, whatever happened in between
+    from ..engines import equivrules as QE
+    QE.k16_connect_cycles(ctx)
+    ctx.floor("K16", 3)
